@@ -157,8 +157,26 @@ def step_state(check: Check) -> None:
                   f"previous_value is read outside the lock_previous block at lines {bad}", loc(fn))
     fn = p.func("Rule.deactivate")
     check.analysed(fn)
-    stores = {t.attr for s in ast.walk(fn.analysis_node) if isinstance(s, ast.Assign) for t in s.targets if isinstance(t, ast.Attribute)}
-    check.require({"activation_degree", "triggered"} <= stores, "H5", "Rule.deactivate/resets", "deactivate resets activation_degree and triggered", loc(fn))
+    # by interpretation: whatever the rule held, after deactivate() its degree is zero and it is not triggered
+    from ..absexec import AbsExec, Internal, MObj, Raised, Unknown, _Return
+
+    rule_obj = MObj("Rule", {"activation_degree": 0.8125, "triggered": True, "enabled": True, "weight": 1.0})
+    ex = AbsExec(fn.qualname, {}, helpers={k: v for k, v in fn.cls.methods.items() if k != "deactivate"})
+    ex.globals = {"scalar": lambda ex_, e, args, kw: args[0], "array": lambda ex_, e, args, kw: args[0], "nan": float("nan")}
+    try:
+        try:
+            ex.block(list(fn.node.body), {fn.params[0].name: rule_obj})
+        except _Return:
+            pass
+        d, t = rule_obj.fields.get("activation_degree"), rule_obj.fields.get("triggered")
+        ok = isinstance(d, (int, float)) and not isinstance(d, bool) and d == 0 and t is False
+        why = f"after deactivate() the rule holds activation_degree={d!r}, triggered={t!r}"
+    except (Raised, Internal) as err:
+        ok, why = False, f"deactivate() ends with {err.cls}"
+    except Unknown as u:
+        raise AnalysisError(str(u)) from None
+    check.require(ok, "H5", "Rule.deactivate/resets", "deactivate resets the activation degree to zero and the triggered flag to false (interpreted on a rule that held other values)"
+                  if ok else why + " (specified: 0 and False): state of an earlier activation survives", loc(fn))
 
 
 def _flows_only_to(cfg, n, attr: str, depth: int = 0) -> bool:
@@ -239,31 +257,49 @@ def restart(check: Check) -> None:
     r = Resolver(p, fn)
     cfg = r.cfg
 
-    def loop_effect(coll: str, pred) -> bool:
-        for h, base, d in loops_over(r, lambda b: is_path(b, f"self.{coll}")):
-            body = cfg.loop_body(h)
-            for n in body:
-                if pred(n) and not [g for g in cfg.must_guards(n) if g[2] in body] and not cfg.must_guards(h) and not early_exits(cfg, h):
-                    return True
-        return False
+    # by interpretation on model engines with 0-2 input variables, rule blocks and output variables, enabled or not, holding values of an earlier
+    # step: afterwards every input value is NaN, every block has had reload_rules(<this engine>) called once, every output has been cleared once
+    import itertools
 
-    def sets_nan(n) -> bool:
-        return any(isinstance(t, ast.Attribute) and t.attr == "value" for t in cfg.stores_at(n)) and \
-            (lambda v: isinstance(v, float) and v != v)(const_value(r.term(n.ast.value, n)))  # type: ignore[union-attr]
+    from ..absexec import AbsExec, Internal, MObj, Raised, Unknown, _Return
 
-    def calls(method: str, arg_self: bool):
-        def f(n) -> bool:
-            for c in cfg.calls_in(n):
-                if isinstance(c.func, ast.Attribute) and c.func.attr == method and r.term(c.func.value, n)[0] == "elem":
-                    t = r.term(c, n)
-                    if not arg_self or (t[2] and t[2][0] == ("param", "self")):
-                        return True
-            return False
-        return f
-
-    check.require(loop_effect("input_variables", sets_nan), "H2", "Engine.restart/inputs", "restart sets every input value to NaN", loc(fn))
-    check.require(loop_effect("rule_blocks", calls("reload_rules", True)), "H2", "Engine.restart/rules", "restart reloads the rules of every block against this engine", loc(fn))
-    check.require(loop_effect("output_variables", calls("clear", False)), "H2", "Engine.restart/outputs", "restart clears every output variable", loc(fn))
+    bad: dict[str, str] = {}
+    cases = 0
+    try:
+        for n_in, n_rb, n_out, en in itertools.product((0, 1, 2), (0, 1, 2), (0, 1, 2), (True, False)):
+            cases += 1
+            log: list[tuple] = []
+            engine = MObj("Engine", {"name": "e"})
+            engine.fields["input_variables"] = [MObj("InputVariable", {"name": f"i{k}", "value": 0.5, "enabled": en or k == 0}) for k in range(n_in)]
+            engine.fields["output_variables"] = [MObj("OutputVariable", {"name": f"o{k}", "value": 0.5, "enabled": en or k == 0}) for k in range(n_out)]
+            engine.fields["rule_blocks"] = [MObj("RuleBlock", {"name": f"b{k}", "enabled": en or k == 0}) for k in range(n_rb)]
+            hooks = {"method:reload_rules": lambda ex_, e, recv, args, kw: log.append(("reload", recv.fields["name"], (args[0] if args else kw.get("engine")) is engine)),
+                     "method:clear": lambda ex_, e, recv, args, kw: log.append(("clear", recv.fields["name"]))}
+            ex = AbsExec(fn.qualname, hooks, helpers={k: v for k, v in fn.cls.methods.items() if k.startswith("_") and not k.startswith("__")})
+            ex.globals = {"nan": float("nan"), "scalar": lambda ex_, e, args, kw: args[0]}
+            what = f"an engine with {n_in} input variable(s), {n_rb} rule block(s), {n_out} output variable(s)" + ("" if en else ", all but the first of each disabled")
+            try:
+                ex.block(list(fn.node.body), {fn.params[0].name: engine})
+            except _Return:
+                pass
+            except (Raised, Internal) as err:
+                bad.setdefault("inputs", f"{what}: restart() ends with {err.cls}")
+                continue
+            left = [v.fields["name"] for v in engine.fields["input_variables"] if not (isinstance(v.fields["value"], float) and v.fields["value"] != v.fields["value"])]
+            if left:
+                bad.setdefault("inputs", f"{what}: input variable(s) {left} keep the value of the earlier step")
+            want_rb = [("reload", b.fields["name"], True) for b in engine.fields["rule_blocks"]]
+            got_rb = [ev for ev in log if ev[0] == "reload"]
+            if sorted(got_rb) != sorted(want_rb):
+                bad.setdefault("rules", f"{what}: reload_rules calls {got_rb}, specified one per rule block with this engine")
+            want_o = sorted(("clear", o.fields["name"]) for o in engine.fields["output_variables"])
+            if sorted(ev for ev in log if ev[0] == "clear") != want_o:
+                bad.setdefault("outputs", f"{what}: output variables cleared: {[ev[1] for ev in log if ev[0] == 'clear']}, specified every output variable once")
+    except Unknown as u:
+        raise AnalysisError(str(u)) from None
+    for key, good in (("inputs", "restart sets every input value to NaN"), ("rules", "restart reloads the rules of every block against this engine"),
+                      ("outputs", "restart clears every output variable")):
+        check.require(key not in bad, "H2", f"Engine.restart/{key}", f"{good} ({cases} model engines)" if key not in bad else bad[key], loc(fn), exhaustive=True, cases=cases)
     rl = p.func("RuleBlock.reload_rules")
     check.analysed(rl)
     rr = Resolver(p, rl)
